@@ -63,6 +63,9 @@ def base_cells():
         # cyclic point groups 4 and 3 with atoms off the axis (sigma(g) is not symmetric: g and g^-1 act differently)
         _cell("p4_general", np.diag([4.0, 4.0, 5.1]), [[0.13, 0.27, 0.1], [-0.27, 0.13, 0.1], [-0.13, -0.27, 0.1], [0.27, -0.13, 0.1], [0, 0, 0.5]], [5, 5, 5, 5, 7]),
         _cell("p3_general", [[4.2, 0, 0], [-2.1, 2.1 * s3, 0], [0, 0, 5.0]], [[0.12, 0.31, 0.07], [-0.31, -0.19, 0.07], [0.19, -0.12, 0.07], [0, 0, 0.4]], [5, 5, 5, 7]),
+        # a bonded group plus a distant guest atom on a site without inversion symmetry: a small cutoff leaves the guest with no
+        # partner (its sum rule then constrains the on-site element alone)
+        _cell("guest", np.diag([5.0, 5.6, 6.4]), [[0.1, 0.1, 0.1], [0.32, 0.15, 0.12], [0.12, 0.38, 0.2], [0.6, 0.62, 0.65]], [8, 1, 1, 2]),
         _cell("tri2_obtuse", lattice_from_params(3.3, 3.8, 4.4, 108, 104, 112), [[0.04, 0.1, 0.02], [0.47, 0.58, 0.55]], [5, 7]),
     ]
     return {c["name"]: c for c in cells}
